@@ -38,14 +38,17 @@ def sym_inputs(ctx, w):
     return SList(K, entity, "input_entities"), dict(K=K, nv=nv, nc=nc, V=V, C=C, w=w)
 
 
-def _capture_create(ctx):
-    """Stand-in for `cls._type.create(workspace, **kwargs)`: records the geometry it is given."""
+def _capture_create(ctx, real_cls=None):
+    """Stand-in for the merger class: `cls._type.create(workspace, **kwargs)` records the geometry it
+    is given; every other class attribute (private helpers) is the real class's."""
 
     def create(I, args, kw):
         ctx.env["created"] = kw
         return Opaque("merged-object")
 
-    return AbsObj("merger-class", {"_type": AbsObj("type", {}, {"create": create})})
+    out = AbsObj("merger-class", {"_type": AbsObj("type", {}, {"create": create})}, cls=real_cls)
+    out.is_class = real_cls is not None
+    return out
 
 
 class PointsCreate(Contract):
@@ -56,7 +59,9 @@ class PointsCreate(Contract):
     def setup(self, ctx):
         inputs, S = sym_inputs(ctx, 0)
         ctx.env.update(S=S)
-        return [_capture_create(ctx), Opaque("workspace"), inputs], {}
+        from geoh5py.shared.merging import PointsMerger
+
+        return [_capture_create(ctx, PointsMerger), Opaque("workspace"), inputs], {}
 
     def post(self, ctx, result):
         S = ctx.env["S"]
@@ -133,7 +138,7 @@ class CellCreate(Contract):
     def setup(self, ctx):
         inputs, S = sym_inputs(ctx, ctx.case)
         ctx.env.update(S=S)
-        return [_capture_create(ctx), Opaque("workspace"), inputs], {}
+        return [_capture_create(ctx, __import__("geoh5py.shared.merging", fromlist=["CurveMerger"]).CurveMerger), Opaque("workspace"), inputs], {}
 
     def post(self, ctx, result):
         S = ctx.env["S"]
